@@ -21,6 +21,14 @@ def build(repo=None):
     for pkg in ('xtuml', 'bridgepoint'):
         shutil.copytree(os.path.join(repo, pkg), os.path.join(d, pkg),
                         ignore=shutil.ignore_patterns('__*tab.py', '__pycache__', '*.pyc', 'parser.out'))
+    # The repository is installed in the interpreter as an editable package whose import hook maps
+    # `xtuml.*` / `bridgepoint.*` submodules that are missing here (the parser tables!) back to /repo.
+    # Remove that hook in every process that runs on the scratch copy.
+    with open(os.path.join(d, 'sitecustomize.py'), 'w') as f:
+        f.write("import sys\n"
+                "sys.meta_path[:] = [f for f in sys.meta_path\n"
+                "                    if not str(getattr(f, '__module__', type(f).__module__)).startswith('__editable__')]\n"
+                "sys.path[:] = [p for p in sys.path if not p.rstrip('/').endswith(%r)]\n" % repo.rstrip('/'))
     env = {
         'PYTHONPATH': d,
         'PYTHONHASHSEED': '0',
@@ -32,7 +40,11 @@ def build(repo=None):
             'assert xtuml.__file__.startswith(%r), xtuml.__file__\n'
             'xtuml.ModelLoader().input("")\n'
             'import bridgepoint.oal as o\n'
-            'o.parse("x = 1;")\n' % d)
+            'o.parse("x = 1;")\n'
+            'import os\n'
+            'tabs = [m for m in sys.modules if m.endswith("tab")]\n'
+            'assert all(sys.modules[m].__file__.startswith(%r) for m in tabs), [sys.modules[m].__file__ for m in tabs]\n'
+            % (d, d))
     rc, out = common.run([common.PY, '-c', code], env=env, cwd=d, timeout=300)
     if rc != 0:
         raise common.MachineryError('cannot build/import pyxtuml from %s:\n%s' % (repo, out[-3000:]))
